@@ -18,12 +18,15 @@
 use full_moon::{
     ast::{Ast, Block, Call, Expression, Prefix, Stmt, Suffix},
     node::Node,
-    tokenizer::{TokenReference, TokenType},
+    tokenizer::{Token, TokenReference, TokenType},
 };
 
 use crate::{
     context::{Context, FormatNode},
-    formatters::trivia::{FormatTriviaType, UpdateLeadingTrivia},
+    formatters::{
+        trivia::{FormatTriviaType, UpdateLeadingTrivia},
+        trivia_util,
+    },
 };
 
 fn extract_identifier_from_token(token: &TokenReference) -> Option<String> {
@@ -201,9 +204,18 @@ pub(crate) fn sort_requires(ctx: &Context, input_ast: Ast) -> Ast {
                 // Sort our list of requires
                 list.sort_by_key(|key| key.0.clone());
 
-                // Mutate the first element with our leading trivia
+                // Mutate the first element with our leading trivia, keeping any comments of its own
+                // (e.g. `--[[comment]] local x = require("x")`) after it
                 match list.first_mut() {
                     Some((_, (Stmt::LocalAssignment(local_assignment), _))) => {
+                        let mut leading_trivia: Vec<Token> = leading_trivia;
+                        leading_trivia.extend(
+                            local_assignment
+                                .local_token()
+                                .leading_trivia()
+                                .filter(|trivia| trivia_util::trivia_is_comment(trivia))
+                                .cloned(),
+                        );
                         *local_assignment = local_assignment
                             .update_leading_trivia(FormatTriviaType::Replace(leading_trivia))
                     }
